@@ -518,14 +518,14 @@ class World(object):
             except ScenarioError as e:
                 errors.append(e)
 
-        if async_requests:
-            self.connect_async_requests(src.model_mock._factory, dest.model_mock._factory)
-
         if errors:
             raise ScenarioError(
                 "While connecting entities, the following errors occurred:\n - "
                 + "\n - ".join(str(e) for e in errors)
             )
+
+        if async_requests:
+            self.connect_async_requests(src.model_mock._factory, dest.model_mock._factory)
 
         trigger: Set[Tuple[EntityId, Attr]] = set()
         for src_attr, dest_attr in attr_pairs:
